@@ -137,13 +137,27 @@ def run(ch, ctx, fault=None):
         style_of = {v: k_ for k_, v in cls_of.items()}
         entry_copy = tty.mark_entry()
         n_ops = ch.int("n_ops", 1, ctx.cfg["max_ops"])
-        for i in range(n_ops):
-            op = ch.weighted("op", [
+        queue = []
+        i = -1
+        while True:
+            i += 1
+            if not queue and i >= n_ops:
+                break
+            op = queue.pop(0) if queue else ch.weighted("op", [
                 (4, "colors"), (4, "namever"), (4, "cell"), (3, "sup_kitty"),
                 (3, "sup_iterm2"), (1, "sup_block"), (3, "auto"), (1, "autoimage"),
                 (1, "disable"), (1, "enable"), (1, "timeout"), (1, "swap_on"),
-                (1, "swap_off"),
+                (1, "swap_off"), (2, "off_on"),
             ])
+            if op == "off_on":
+                # queries are off for a while: what is asked in the meantime gets the
+                # documented fallback, and the same question after enable_queries() gets
+                # the terminal's answer again
+                g = ch.pick("off_on_getter", ("colors", "namever", "cell", "sup_kitty",
+                                              "sup_iterm2", "auto"))
+                queue = ["disable", g, "enable", g]
+                ctx.probe("asked_while_disabled_then_again_when_enabled")
+                continue
             t_start = k.now
             writes0 = k.counts.get("tty.write", 0)
             sched0 = tty.replies_scheduled
